@@ -24,7 +24,7 @@ from vlib import discharge, families, harness, netcheck, numrun, ref_metanet, ru
 from vlib.symx import S, SymArray
 
 PID = "C12"
-ALPHA = ["N(X,0)", "N(Y,63)", "N(Y,9)", "SX", "MX", "SX+F0", "MX+F2", "SX+F1", "N(X:=Y)", "N(Xpart)"]
+ALPHA = ["N(X,0)", "N(Y,63)", "N(Y,9)", "SX", "MX", "SX+F0", "MX+F2", "SX+F1", "N(X:=Y)", "N(Xpart)", "N(Ybad)"]
 
 
 def snapshot(X):
@@ -127,6 +127,17 @@ class Session:
             if hasattr(self, "X0"):
                 self.overwrite_in_place(self.X, self.X0)
             return None, []
+        if op == "N(Ybad)":
+            # a step that fails half-way: the LAST link gets a density vector of the wrong length
+            last = self.topo.links[-1]
+            bad = dict(self.Y)
+            v = self.Y[(last.name, "rho")]
+            bad[(last.name, "rho")] = np.concatenate([np.asarray(v), np.asarray(v)[:1]]) if not self.sym else SymArray.of(list(v.view(np.ndarray)) + [S.var("extra_bad")])
+            try:
+                self.numpy_step(bad, 0)
+            except Exception:  # noqa  (expected)
+                return None, []
+            return None, []  # some topologies tolerate it (broadcast); nothing to assert here
         if op == "N(Xpart)":
             from sym_metanet.engines.numpy import Engine as NE
             # partial initial conditions: the speed limits of VSL links are left to the engine
